@@ -1,10 +1,10 @@
-"""AXES -- bounded symbolic execution of array-assembly code over *axis labels*.
+"""AXES -- abstract interpretation of array-assembly code over *axis labels* (shape analysis with the number of factors unrolled).
 
 The structural diag rules of Kronecker / KronSum build an n-way outer product of the factors' diagonals by indexing and broadcasting
 (`d[None, :, None]`, `acc[..., None] * d`, list arithmetic on index tuples, comprehensions, folds).  Whether the flattened result is
 the Kronecker (row-major) order is a fact about *where each factor's axis ends up*, independent of any array value.  This module
-interprets the rule's own syntax tree for a concrete number of factors n = 2, 3, 4 with every array replaced by the list of its axis
-labels (factor index or '1' for an inserted axis):
+is an abstract interpreter of the rule's syntax tree: every array is abstracted to the list of its axis labels (factor index, or '1'
+for an inserted axis) -- no array, dtype or size exists in the analysis -- and the family `for all n factors` is unrolled to n = 2, 3, 4:
 
     indexing with None / slice(None) / ...   rearranges the label list (numpy's rules)
     a binary operation                        broadcasts two label lists from the right; two different factors meeting on one axis is a
